@@ -43,6 +43,9 @@ pub enum Op {
     J1(bool),
     Uio2(bool),
     Ai1(u8), // tenths of a volt
+    CpuReset,
+    MasterReset,
+    ResetRam,
 }
 
 fn apply(b: &mut Bus, r: &mut Ref, op: Op) -> Option<String> {
@@ -94,6 +97,25 @@ fn apply(b: &mut Bus, r: &mut Ref, op: Op) -> Option<String> {
             r.board.0.set_analog_input1(t as f32 / 10.0);
             None
         }
+        Op::CpuReset => {
+            b.cpu_reset();
+            r.out = [0, 0];
+            r.micr = 0;
+            None
+        }
+        Op::MasterReset => {
+            b.master_reset();
+            r.out = [0, 0];
+            r.micr = 0;
+            r.input = [0; 4];
+            r.board.0.master_reset();
+            None
+        }
+        Op::ResetRam => {
+            b.reset_ram();
+            r.ram = [0; 240];
+            None
+        }
     }
 }
 
@@ -137,6 +159,9 @@ fn line(ops: &[Op]) -> String {
         Op::J1(v) => format!("j{}", *v as u8),
         Op::Uio2(v) => format!("u{}", *v as u8),
         Op::Ai1(t) => format!("a{:02x}", t),
+        Op::CpuReset => "c".to_string(),
+        Op::MasterReset => "m".to_string(),
+        Op::ResetRam => "z".to_string(),
     }).collect::<Vec<_>>().join(","))
 }
 
@@ -151,6 +176,9 @@ fn parse_ops(s: &str) -> Vec<Op> {
             "d" => Op::Di1(h(rest)),
             "j" => Op::J1(rest == "1"),
             "u" => Op::Uio2(rest == "1"),
+            "c" => Op::CpuReset,
+            "m" => Op::MasterReset,
+            "z" => Op::ResetRam,
             _ => Op::Ai1(h(rest)),
         }
     }).collect()
@@ -202,6 +230,8 @@ fn prior_states() -> Vec<Vec<Op>> {
         vec![],
         // every register holds a value of its own, so that a read or write landing on a neighbour shows
         vec![Op::Write(0x00, 0xAA), Op::Write(0xEF, 0x55), Op::Write(0xEE, 0x56), Op::Input(0, 0x11), Op::Input(1, 0x22), Op::Input(2, 0x33), Op::Input(3, 0x44), Op::Write(0xFE, 0x7E), Op::Write(0xFF, 0x7F), Op::Di1(0x66), Op::Write(0xF0, 0x77), Op::Write(0xF1, 0x88), Op::J1(true)],
+        // every interrupt enable set, the board's interrupt flip-flop raised through jumper 1
+        vec![Op::Write(0xF9, 0x3F), Op::Write(0xF2, 0xC6), Op::J1(true), Op::Write(0xF2, 0x85), Op::Write(0xF1, 0x40)],
         vec![Op::Input(9, 1)],
         vec![Op::Input(9, 2), Op::Write(0xF9, 0x3F)],
         vec![Op::Write(0xF9, 0x01), Op::Write(0xF0, 200), Op::Write(0xF1, 50), Op::Ai1(30), Op::Write(0xF2, 0x87), Op::Write(0xF2, 0xC4), Op::Di1(0x99)],
@@ -258,6 +288,34 @@ pub fn run() {
             add_bad(&mut bad, k, &ops, w);
         }
     }
+    // (a') the same write repeated across each kind of reset: write(a,v); reset; write(a,v); read
+    {
+        let res = mc::par_ranges(256, 64, |rg| {
+            let mut out = vec![];
+            let mut n = 0u64;
+            for a in rg {
+                let a = a as u8;
+                for v in [0x00u8, 0x01, 0x5A, 0xFF] {
+                    for reset in [Op::CpuReset, Op::MasterReset, Op::ResetRam] {
+                        let ops = [Op::Write(a, v), reset, Op::Write(a, v), Op::Read(a), Op::Write(a, v ^ 0xFF), Op::Read(a)];
+                        n += 1;
+                        match mc::catch(|| run_ops(&ops)) {
+                            Ok(Some((k, w))) => out.push((format!("reset/{}", k), ops.to_vec(), w)),
+                            Ok(None) => {}
+                            Err(p) => out.push((format!("panic/{}", p.file()), ops.to_vec(), format!("panic at {}: {}", p.site(), p.msg))),
+                        }
+                    }
+                }
+            }
+            (n, out)
+        });
+        for (n, out) in res {
+            singles += n;
+            for (k, ops, w) in out {
+                add_bad(&mut bad, k, &ops, w);
+            }
+        }
+    }
     // (b) all ordered pairs of write addresses with two distinct values
     let res = mc::par_ranges(65536, 256, |rg| {
         let mut out = vec![];
@@ -292,17 +350,24 @@ pub fn run() {
     let vals: Vec<u8> = vec![0x00, 0x01, 0x80, 0xC7, 0xFF];
     let mut alphabet: Vec<Op> = vec![];
     for &a in &addrs {
-        for &v in &vals {
+        // bytes that mean something at this address come on top of the generic ones
+        let special: &[u8] = match a {
+            0xF2 => &[0x05, 0x87, 0xC6, 0xCE, 0xC2],
+            0xF9 => &[0x30, 0x3E],
+            0xFD => &[0x9B, 0x7F],
+            _ => &[],
+        };
+        for &v in vals.iter().chain(special.iter()) {
             alphabet.push(Op::Write(a, v));
         }
         alphabet.push(Op::Read(a));
     }
+    alphabet.extend([Op::CpuReset, Op::MasterReset, Op::ResetRam]);
     for i in 0..4 {
         alphabet.push(Op::Input(i, 0x5A));
     }
     alphabet.extend([Op::Di1(0xE1), Op::J1(true), Op::J1(false), Op::Uio2(true), Op::Ai1(13)]);
-    let depth = 4;
-    let _ = quick;
+    let depth = if quick { 3 } else { 4 };
     #[derive(Clone)]
     struct Node {
         b: Bus,
@@ -321,6 +386,16 @@ pub fn run() {
             v.push(n.r.read(a));
         }
         v.extend_from_slice(format!("{:?}", n.r.board.0).as_bytes());
+        v.extend_from_slice(format!("{:?}", n.b.board()).as_bytes());
+        // the Bus itself has registers without read-back (and could grow hidden state): a reference
+        // state is expanded through up to two different kinds of last operation, so that different
+        // operation orders reaching the same observable state are both followed
+        let variant = match n.hist.last() {
+            Some(Op::Write(a, _)) if *a >= 0xF0 => 1u8,
+            Some(Op::CpuReset) | Some(Op::MasterReset) | Some(Op::ResetRam) => 2,
+            _ => 0,
+        };
+        v.push(variant);
         mc::fnv(&v) ^ (n.bad.is_some() as u64)
     };
     let inits: Vec<Node> = (0..3u8)
@@ -387,7 +462,7 @@ pub fn run() {
     ctx.set("distinct_nontrivial", stats.states);
     ctx.set("rule", "single: write(a,v) then read, all 256 x 256, from 3 prior states; pairs: all 65 536 ordered address pairs x 2 value pairs; BFS: every sequence of the operation alphabet to the depth, states deduplicated on the reference state; after every operation all 256 addresses are read and RAM, outputs, MICR bit and the board are compared with REF-BUS; every read is checked to leave the Bus value unchanged (PartialEq)");
     ctx.set("exhaustive", !stats.cap_hit);
-    ctx.set("bounds", format!("BFS depth {} over {} operations (20 addresses x 5 values writes, 20 reads, 4 input setters, 5 board setters)", depth, alphabet.len()));
+    ctx.set("bounds", format!("BFS depth {} over {} operations (20 addresses x 5-10 values writes, 20 reads, 4 input setters, 5 board setters, cpu/master reset, RAM reset)", depth, alphabet.len()));
     ctx.set("bfs_states", stats.states);
     ctx.set("bfs_transitions", stats.transitions);
     ctx.set("bfs_frontiers", Json::Arr(stats.frontier_sizes.iter().map(|n| Json::Int(*n as i64)).collect()));
